@@ -77,6 +77,9 @@ class World:
         import urllib.parse
         return "https://%s/.well-known/webfinger?resource=%s" % (self.host(k), urllib.parse.quote_plus("acct:%s@%s" % (account, self.host(k)), safe=""))
 
+    def paging(self, url, amounts):
+        self.ops.append(("paging", self.u(url), list(amounts)))
+
     def register_strings(self, v):
         """every string that may be parsed as a URL/reference must be in the universe"""
         if isinstance(v, str):
@@ -102,6 +105,8 @@ class World:
                 toks += [0, o[1]]
             elif o[0] == "webfinger":
                 toks += [4, len(o[1])] + list(o[1])
+            elif o[0] == "paging":
+                toks += [5, o[1], len(o[2])] + list(o[2])
             else:
                 toks += [1] + jsongen.to_tokens(o[1]) + [o[2]]
         meta = {"universe": self.universe, "entries": [(self.universe[ui], resp.decode("latin-1"), fin) for ui, resp, fin in self.entries],
